@@ -11,7 +11,7 @@
    EVERY schedule, the repaired code (v0 = false). *)
 From SC Require Import Base.Prelude Resource.Impl Resource.Spec Resource.Pull Resource.ImplProofs
   Resource.Flat Resource.FlatProofs Resource.Judge Conc.Lts Conc.LtsProofs Conc.DeleteProofs Conc.FlatInst Conc.Judge
-  Conc.GenLts Conc.GenProofs Conc.LinSound Conc.AtomicDefs Gen.C02Atomic Conc.AtomicTable Conc.CfgLts Conc.CfgProofs.
+  Conc.GenLts Conc.GenProofs Conc.LinSound Conc.AtomicDefs Gen.C02Atomic Conc.AtomicTable Conc.CfgLts Conc.CfgProofs Conc.CreatedProofs.
 From Coq Require Import Sorted.
 
 Section C02.
@@ -345,6 +345,45 @@ Print Assumptions C02_checker_complete.
 Theorem C02_lock_table : atomic_table_ok atomic_rows = true.
 Proof. exact atomic_table_holds. Qed.
 Print Assumptions C02_lock_table.
+
+(* ---------- the created callback (WithCreatedCallback) is counted ----------
+   For every program (with or without generated ids), candidate assignment and schedule: a call invokes its
+   created callback at most once, and never without the option.  While it holds the provisional `created`
+   message (allocated at the first read of an absent id, or at the re-read under the write lock when the
+   item read at first has been deleted meanwhile) it has invoked it exactly once; once it has saved, it has
+   invoked it exactly once if the change it committed and is about to publish is an ADD, and not at all if
+   it is an UPDATE.  (A call that allocated and then lost the race has invoked it and created nothing:
+   C02_created_callback_fires_on_lost_race.) *)
+Section C02_created_callback.
+  Variable M : Type.
+  Variable m_eqb : M -> M -> bool.
+  Variable m_empty : M.
+  Variable writer : Type.
+  Variable w_validate : writer -> option Z.
+  Variable w_merge : writer -> M -> M -> M.
+  Variable rmask : Type.
+  Variable clock_at : Z -> Z.
+  Variable str_ltb : string -> string -> bool.
+  Variable idfun : option (string -> string).
+  Variable prog : list (call M writer rmask).
+  Variable cands : nat -> list string.
+  Variable v0 : vstate M.
+  Variable c0 : cstate M.
+
+  Notation grun := (grun m_eqb m_empty w_validate w_merge clock_at str_ltb idfun false false prog cands).
+  Notation cb_at := (cb_at M writer rmask).
+
+  Theorem C02_created_callback_count : forall sched t,
+    let gs := grun sched (ginit prog v0 c0) in
+    0 <= g_created gs t <= 1 /\
+    (cb_at prog t = false -> g_created gs t = 0) /\
+    (forall old cr, nth_error (st_pcs (g_st gs)) t = Some (PRead old cr) -> cb_at prog t = true ->
+                    (g_created gs t = 1 <-> cr = true)) /\
+    (forall nv e, nth_error (st_pcs (g_st gs)) t = Some (PSavedC nv e) -> cb_at prog t = true ->
+                  (g_created gs t = 1 <-> ce_kind e = KAdd)).
+  Proof. intros sched t. apply created_count. Qed.
+End C02_created_callback.
+Print Assumptions C02_created_callback_count.
 
 (* ---------- the configuration the resources are constructed with (Conc/CfgLts.v) ----------
    A program runs on a Value and a Collection constructed with: an equivalence (WithEquivalence /
